@@ -97,6 +97,10 @@ class Check:
                     self.probes["runs_with_preemption_at_loop_heads"] = self.probes.get("runs_with_preemption_at_loop_heads", 0) + 1
                     self.probes["preempt_yields"] = self.probes.get("preempt_yields", 0) + (r.sites.get("preempt", 0))
                 self.policies[pol] = self.policies.get(pol, 0) + 1
+                if getattr(r, "clock_jumps", 0):
+                    self.probes["timers_fired_by_clock_jump"] = self.probes.get("timers_fired_by_clock_jump", 0) + r.clock_jumps
+                if (r.spec.get("sched") or {}).get("timers_first"):
+                    self.probes["runs_with_timers_before_environment"] = self.probes.get("runs_with_timers_before_environment", 0) + 1
                 if getattr(r, "map_checks", 0):
                     self.probes["shared_map_accesses_checked"] = self.probes.get("shared_map_accesses_checked", 0) + r.map_checks
                     if r.map_shared:
@@ -267,8 +271,9 @@ class Check:
             ch = got.get(sched_key(wsl["sched"]))
             if ch is None:
                 return case
-            keep = {k: v for k, v in sl["sched"].items() if k in ("crash_step", "max_steps", "max_ticks")}
-            sl["sched"] = dict(keep, policy="first", seed=1, choices=list(ch), replay=True)
+            keep = {k: v for k, v in sl["sched"].items() if k in ("crash_step", "max_steps", "max_ticks", "preempt", "timers_first")}
+            # where the run is preempted at loop heads is a function of (preempt, seed): the seed stays with it
+            sl["sched"] = dict(keep, policy="first", seed=sl["sched"].get("seed", 1) if keep.get("preempt") else 1, choices=list(ch), replay=True)
         if not self._holds(cand, klass):
             return case  # explicit list does not reproduce (should not happen); keep the seed form
         evals = [0]
